@@ -287,6 +287,128 @@ def malformed_case(rng):
     return dev, N, gs
 
 
+# ----------------------------------------------------------------------------------------
+# systematic multi-gate circuits and histories
+
+CTL2 = ("CNOT", "CSIGN")
+SWP2 = ("SWAP", "ISWAP", "SQRTISWAP")
+
+
+def p2(name, a, b, idx=0):
+    """two-qubit library gate on the ordered pair (a, b): control a / target b, resp. targets [a, b]"""
+    return placed(name, (b, a) if name in CTL2 else (a, b), idx)
+
+
+def systematic_multi(N):
+    """(kind, gate list) for every pair a < b of an N-qubit register: circuits that use the pair more than once"""
+    for a, b in itertools.combinations(range(N), 2):
+        ors = ((a, b), (b, a))
+        for n1 in CTL2:
+            for n2 in CTL2:
+                for o1 in ors:
+                    for o2 in ors:
+                        kind = ("both-orientations" if o1 != o2 else "repeat") + ("" if n1 == n2 else "+names")
+                        yield kind, [p2(n1, *o1), p2(n2, *o2)]
+        for o1 in ors:
+            o2 = (o1[1], o1[0])
+            yield "both-orientations+between", [p2("CNOT", *o1), placed("RX", (a,), 1), p2("CNOT", *o2)]
+            yield "both-orientations+thrice", [p2("CNOT", *o1), p2("CNOT", *o2), p2("CNOT", *o1)]
+        for k, n in enumerate(SWP2):
+            yield "repeat", [p2(n, a, b), p2(n, a, b)]
+            yield "repeat+reversed-targets", [p2(n, a, b), p2(n, b, a)]
+            yield "same-pair+names", [p2(n, a, b), p2(SWP2[(k + 1) % len(SWP2)], b, a)]
+        for c in CTL2:
+            for o in ors:
+                for n in SWP2:
+                    yield "exchange-before-controlled", [p2(n, a, b), p2(c, *o)]
+                    yield "controlled-before-exchange", [p2(c, *o), p2(n, b, a)]
+        # a three-qubit gate after a CNOT on two of its qubits (its decomposition contains both orientations)
+        for c in range(N):
+            if c in (a, b):
+                continue
+            yield "three-qubit-after-pair", [p2("CNOT", a, b), placed("TOFFOLI", (c, a, b))]
+            yield "three-qubit-after-pair", [p2("CNOT", b, a), placed("FREDKIN", (a, b, c))]
+
+
+def systematic_histories(N):
+    """(kind, [(dev, N, gates), ...]): transpile calls made one after the other in one process"""
+    chains = ["LinearSpinChain", "SCQubits", "CircularSpinChain"]
+    for a, b in itertools.combinations(range(N), 2):
+        ab, ba = [p2("CNOT", a, b)], [p2("CNOT", b, a)]
+        for dev in chains:
+            yield "orientations", [(dev, N, ab), (dev, N, ba), (dev, N, ab)]
+        yield "devices", [("LinearSpinChain", N, ab), ("SCQubits", N, ba), ("CircularSpinChain", N, ab),
+                          ("LinearSpinChain", N, ba), ("DispersiveCavityQED", N, ba)]
+        yield "devices", [("SCQubits", N, ba), ("LinearSpinChain", N, ab), ("CircularSpinChain", N, ba)]
+        if N < 5:
+            yield "sizes", [("CircularSpinChain", N, ab), ("CircularSpinChain", N + 1, ab), ("CircularSpinChain", N + 1, ba),
+                            ("CircularSpinChain", N, ba)]
+        two = [p2("CNOT", a, b), p2("ISWAP", b, a)]
+        yield "same-object-twice", [("CircularSpinChain", N, two), ("CircularSpinChain", N, two, True),
+                                    ("LinearSpinChain", N, two)]
+        yield "names", [("LinearSpinChain", N, [p2("CSIGN", a, b)]), ("LinearSpinChain", N, ab),
+                        ("LinearSpinChain", N, [p2("SWAP", a, b)]), ("LinearSpinChain", N, [p2("ISWAP", b, a)])]
+
+
+def hwit(calls):
+    out = []
+    for c in calls:
+        w = wit(c[0], c[1], c[2])
+        if len(c) > 3 and c[3]:
+            w["reuse"] = True
+        out.append(w)
+    return {"history": out}
+
+
+def fresh_fails(w, timeout=300):
+    """check_property(w) in a FRESH interpreter (same tree, nothing transpiled before) -> (fails | None, detail)"""
+    code = ("import sys, json; from props import c13; w = json.load(sys.stdin); "
+            "print('\\n@@' + json.dumps(list(c13.check_property(w))))")
+    try:
+        r = subprocess.run([sys.executable, "-W", "ignore", "-c", code], input=json.dumps(w), capture_output=True,
+                           text=True, env=dict(os.environ), timeout=timeout)
+        line = [ln for ln in r.stdout.splitlines() if ln.startswith("@@")][-1]
+        f, d = json.loads(line[2:])
+        return bool(f), d
+    except Exception as e:
+        return None, f"fresh interpreter: {type(e).__name__}"
+
+
+def reproducible(w, ncalls, budget=12):
+    """a witness that failed in this process -> one that fails from scratch: itself, or the shortest suffix of the
+    call log (ending with it) that fails in a fresh interpreter, single calls dropped greedily"""
+    f, _ = fresh_fails(w)
+    if f or f is None:
+        return w
+    own = w["history"] if "history" in w else [w]
+    log = CALLS[:ncalls]
+    strip = lambda c: {k: v for k, v in c.items() if k != "reuse"}
+    base = log[:len(log) - len(own)] if [strip(c) for c in log[len(log) - len(own):]] == [strip(c) for c in own] else log
+    k, found, used = 1, None, 1
+    while used < budget and base:
+        pre = base[-k:]
+        f, _ = fresh_fails({"history": pre + own})
+        used += 1
+        if f:
+            found = pre
+            break
+        if k >= len(base):
+            break
+        k = min(2 * k, len(base)) if k < 2048 else len(base)
+    if found is None:
+        return w
+    i = 0
+    while i < len(found) and used < budget + 10 and len(found) > 1:
+        trial = found[:i] + found[i + 1:]
+        f, _ = fresh_fails({"history": trial + own})
+        used += 1
+        if f:
+            found = trial
+        else:
+            i += 1
+    return {"history": found + own}
+
+
 class C13(PropertyCheck):
     id = "C13"
     lean_modules = ["QipVerif.Props.C13"]
@@ -373,29 +495,85 @@ class C13(PropertyCheck):
                 res.disagree(inp, model.get(dev), live, "regenerated device table vs live processor object",
                              {"dev": dev, "N": 4, "gates": [["TOFFOLI", [2], [0, 1], None]]})
 
-    def _run_cases(self, ctx, res, cases, kind):
-        lines = [f"transpile dev={dev} n={N} gates={';'.join(g.enc() for g in gs) if gs else '-'}"
-                 for (dev, N, gs) in cases]
+    @staticmethod
+    def _line(dev, N, gs):
+        return f"transpile dev={dev} n={N} gates={';'.join(g.enc() for g in gs) if gs else '-'}"
+
+    def _one_call(self, dev, N, gs, o, qc=None):
+        """model answer `o` against one transpile call -> (model verdict, model gates, input circuit, None | (model, impl, what))"""
+        symvals = {g.sym: g.val for g in gs if g.sym is not None}
+        st, mg = parse_model(o, symvals)
+        st = MODEL_ERR.get(st.strip(), st.strip())
+        before = None if qc is None else [(g.name, aslist(g.targets), aslist(g.controls), g.arg_value) for g in qc.gates]
+        ist, r, qc = impl_transpile(dev, N, gs, qc)
+        if qc is None:
+            return st, mg, None, None
+        bad = None
+        if st != ist:
+            bad = (st, ist, "verdict of transpile")
+        elif st == "ok" and not same_gates(mg, r.gates):
+            bad = ([list(x) for x in mg][:40],
+                   [[g.name, aslist(g.targets), aslist(g.controls), g.arg_value] for g in r.gates][:40],
+                   "transpiled gate list")
+        elif st == "ok":
+            for g in r.gates:
+                fd = field_defect(g)
+                if fd:
+                    bad = ("control_value None or all-ones, no classical condition, label = angle", fd,
+                           "fields of an emitted gate object")
+                    break
+        if bad is None and before is not None and before != [
+                (g.name, aslist(g.targets), aslist(g.controls), g.arg_value) for g in qc.gates]:
+            bad = ("input circuit unchanged", "input circuit changed", "transpile changed its input circuit")
+        return st, mg, qc, bad
+
+    def _run_cases(self, ctx, res, cases, kind, tag_of=None):
+        lines = [self._line(dev, N, gs) for (dev, N, gs) in cases]
         outs = ctx.driver("drv_transpile").run(lines)
-        for (dev, N, gs), o in zip(cases, outs):
-            symvals = {g.sym: g.val for g in gs if g.sym is not None}
-            st, mg = parse_model(o, symvals)
-            st = MODEL_ERR.get(st.strip(), st.strip())
-            ist, r, qc = impl_transpile(dev, N, gs)
+        for k, ((dev, N, gs), o) in enumerate(zip(cases, outs)):
+            st, mg, qc, bad = self._one_call(dev, N, gs, o)
+            ncalls = len(CALLS)
             inp = {"dev": dev, "N": N, "gates": [g.js() + ([1] if getattr(g, "raw", False) else []) for g in gs]}
             if qc is None:
                 continue
             rewritten = st != "ok" or [(n, t, c) for (n, t, c, _) in mg] != [(g.name, g.t, g.c) for g in gs]
             nq = max([len(g.t) + len(g.c) for g in gs] + [0])
             res.case(inp, nontrivial=rewritten,
-                     tags=[f"dev={dev}", f"N={N}", f"verdict={st}", f"len={min(len(gs), 6)}", f"maxarity={nq}", kind])
-            w = wit(dev, N, gs)
-            if st != ist:
-                res.disagree(inp, st, ist, "verdict of transpile", w)
-            elif st == "ok" and not same_gates(mg, r.gates):
-                res.disagree(inp, [list(x) for x in mg][:40],
-                             [[g.name, aslist(g.targets), aslist(g.controls), g.arg_value] for g in r.gates][:40],
-                             "transpiled gate list", w)
+                     tags=[f"dev={dev}", f"N={N}", f"verdict={st}", f"len={min(len(gs), 6)}", f"maxarity={nq}", kind]
+                     + ([] if tag_of is None else [tag_of[k]]))
+            if bad is not None:
+                w, what = wit(dev, N, gs), bad[2]
+                if len(res.disagreements) < 3 and check_property(w)[0]:
+                    w2 = reproducible(w, len(CALLS))
+                    if w2 is not w:
+                        what += (f"; fails only after earlier calls of the same process: witness = the shortest failing "
+                                 f"call sequence ({len(w2['history'])} calls)")
+                    w = w2
+                res.disagree(inp, bad[0], bad[1], what, w)
+
+    def _run_histories(self, ctx, res, hists):
+        """hists: [(kind, [(dev, N, gates[, reuse]), ...])] - the calls of one history are made consecutively"""
+        lines = [self._line(c[0], c[1], c[2]) for _, h in hists for c in h]
+        outs = ctx.driver("drv_transpile").run(lines)
+        pos = 0
+        for kind, h in hists:
+            prev, first_bad, rewritten = None, None, False
+            for k, c in enumerate(h):
+                o = outs[pos]
+                pos += 1
+                reuse = len(c) > 3 and c[3]
+                st, mg, qc, bad = self._one_call(c[0], c[1], c[2], o, prev if reuse else None)
+                prev = qc
+                rewritten = rewritten or st != "ok" or len(mg) != len(c[2])
+                if bad is not None and first_bad is None:
+                    w, what = hwit(h[:k + 1]), bad[2] + f" (call {k + 1} of {len(h)}: {c[0]}({c[1]}))"
+                    if len(res.disagreements) < 3 and check_property(w)[0]:
+                        w = reproducible(w, len(CALLS))
+                    first_bad = (bad[0], bad[1], what, w)
+            inp = {"history": [[c[0], c[1], [g.js() for g in c[2]]] + ([1] if len(c) > 3 and c[3] else []) for c in h]}
+            res.case(inp, nontrivial=rewritten, tags=["history", "history=" + kind, f"calls={len(h)}"])
+            if first_bad is not None:
+                res.disagree(inp, first_bad[0], first_bad[1], first_bad[2], first_bad[3])
 
     def correspondence(self, ctx, res):
         rng = ctx.rng
@@ -417,6 +595,23 @@ class C13(PropertyCheck):
         res.notes.append(f"exhaustive: every placement (ordered, any distance) of every library gate incl. TOFFOLI/FREDKIN on "
                          f"1-5 qubits x 4 devices ({len(cases)} cases); regenerated device tables compared with the live "
                          f"processor objects; then seeded random circuits and a malformed stream")
+        # systematic multi-gate circuits: every pair of every register on every device
+        cases, kinds = [], []
+        for dev in DEVS:
+            for N in range(2, 6):
+                if not buildable(dev, N):
+                    continue
+                for kind, gs in systematic_multi(N):
+                    cases.append((dev, N, gs))
+                    kinds.append("multi=" + kind)
+        self._run_cases(ctx, res, cases, "multi", kinds)
+        hists = [(kind, h) for N in range(2, 6) for kind, h in systematic_histories(N)]
+        self._run_histories(ctx, res, hists)
+        res.notes.append(f"systematic: {len(cases)} circuits that use one pair of qubits more than once (every pair of every "
+                         f"register 2-5 qubits x 4 devices: both orientations, repeats, other names, exchange before/after "
+                         f"controlled, a three-qubit gate after a CNOT on two of its qubits); {len(hists)} histories of 3-5 "
+                         f"transpile calls in one process (orientations, devices sharing a setup, sizes, same object twice); "
+                         f"fields of the emitted gate objects (control_value, classical condition, label vs angle) compared")
         if ctx.thorough:
             # every ordered pair of placed resolvable gates on 3 qubits, on every device
             singles = []
@@ -450,7 +645,15 @@ class C13(PropertyCheck):
 
     # ---------------------------------------------------------------------------------
     def oracle_replay(self, ctx, w):
-        return check_property(w)
+        """the property for the witness run FROM SCRATCH (what `./check C13 --replay` does): a failure seen after
+        other calls of this process is confirmed in a fresh interpreter"""
+        before = len(CALLS)
+        f, d = check_property(w)
+        if f and before > 0:
+            ff, _ = fresh_fails(w)
+            if ff is False:
+                return False, "passes from scratch (failed only after earlier calls of this process: " + d + ")"
+        return f, d
 
     def _systematic(self):
         """three-qubit gates first (the known weak spot), then two-qubit gates at every distance"""
@@ -464,6 +667,21 @@ class C13(PropertyCheck):
                 for dev in DEVS:
                     for qs in itertools.permutations(range(N), 2):
                         yield wit(dev, N, [placed(name, qs)])
+        yield from self._multi()
+
+    def _multi(self, maxN=5):
+        """both orientations of every pair in one circuit, and in consecutive calls"""
+        for N in range(3, maxN + 1):
+            for dev in DEVS:
+                if dev == "DispersiveCavityQED" and N > 3:
+                    continue
+                for a, b in itertools.combinations(range(N), 2):
+                    yield wit(dev, N, [p2("CNOT", a, b), p2("CNOT", b, a)])
+                    yield wit(dev, N, [p2("CNOT", b, a), placed("RX", (a,), 1), p2("CNOT", a, b)])
+        for N in (3, 4):
+            for kind, h in systematic_histories(N):
+                if kind in ("orientations", "devices", "sizes"):
+                    yield hwit(h)
 
     def _rand_witness(self, rng):
         dev = rng.choice(DEVS)
@@ -478,7 +696,7 @@ class C13(PropertyCheck):
         for w in self._systematic():
             f, d = check_property(w)
             if f:
-                yield w, d
+                yield reproducible(w, len(CALLS)), d
             if time.time() - t0 > budget_s:
                 return
         while time.time() - t0 < budget_s:
@@ -497,12 +715,20 @@ class C13(PropertyCheck):
                     f, d = check_property(w)
                     if f and (name, dev) not in seen_kind:
                         seen_kind.add((name, dev))
-                        yield w, d
+                        yield reproducible(w, len(CALLS), budget=8), d
+        n = 0
+        for w in self._multi(4):
+            f, d = check_property(w)
+            if f:
+                yield reproducible(w, len(CALLS), budget=8), d
+                n += 1
+                if n >= 2:
+                    break
         for _ in range(120 if not ctx.thorough else 1500):
             w = self._rand_witness(ctx.rng)
             f, d = check_property(w)
             if f:
-                yield w, d
+                yield reproducible(w, len(CALLS), budget=8), d
 
 
 def devices_native(dev):
